@@ -718,6 +718,25 @@ func runJSON(c runCfg, prop string) error {
 			}
 			send = append(send, fmt.Sprintf("%s REQ authdflt=any,reenc=1 POST %s %s %s", f[1], dialect.Hx("/t/"+f[2]), dialect.Hx("Content-Type:application/json\n"), f[3]))
 			idx = append(idx, i)
+		case "N":
+			// encoding/json itself on string texts (Model/JsonString.v is a transcription of it)
+			if len(f) == 3 && f[1] == "jq" {
+				bs, err := json.Marshal(dialect.UnHx(f[2]))
+				if err != nil {
+					impl[i] = "impl=ERR"
+				} else {
+					impl[i] = "impl=" + dialect.Hx(string(bs))
+				}
+			} else if len(f) == 3 && f[1] == "ju" {
+				var out string
+				if err := json.Unmarshal([]byte(dialect.UnHx(f[2])), &out); err != nil {
+					impl[i] = "impl=ERR"
+				} else {
+					impl[i] = "impl=ok:" + dialect.Hx(out)
+				}
+			} else {
+				impl[i] = "SKIP"
+			}
 		case "E", "U", "EO", "UO", "EK":
 			p := byName[f[1]]
 			if p == nil || !p.OK() {
@@ -1108,5 +1127,44 @@ func jsonCases(c runCfg, prop string) ([]*scratch.Pkg, []string, map[string]inte
 		}
 		lines = append(lines, oneOfLines...)
 	}
+	lines = append(lines, jsonStringLines(rand.New(rand.NewSource(c.Seed+5)), c.Thorough)...)
 	return pkgs, lines, map[string]interface{}{"packages_planned": npk, "types": npk * per, "encode_cases": nE, "decode_cases": nU, "top_level_kinds": kinds}
+}
+
+// jsonStringLines: valid UTF-8 strings (every ASCII byte, multi-byte runes incl. U+2028/U+2029 and non-BMP) for the string encoder, and
+// string literals (every escape, surrogate pairs and lone surrogates, bad escapes, raw control bytes, missing quotes) for the decoder
+func jsonStringLines(rng *rand.Rand, thorough bool) []string {
+	n := 800
+	if thorough {
+		n = 20000
+	}
+	var out []string
+	for b := 0; b < 128; b++ {
+		s := string([]byte{byte(b)})
+		out = append(out, "N jq "+dialect.Hx(s), "N jq "+dialect.Hx("a"+s+"b"), "N ju "+dialect.Hx("\""+s+"\""), "N ju "+dialect.Hx("\"\\"+s+"\""))
+	}
+	atoms := []string{"a", "Z", "0", " ", "\"", "\\", "/", "<", ">", "&", "\n", "\r", "\t", "\b", "\f", "\x00", "\x1f", "\x7f", "é", "名", "\u2028", "\u2029", "\U0001F600", "\ufffd", "'", "\u00a0"}
+	for i := 0; i < n; i++ {
+		var b strings.Builder
+		for k := rng.Intn(7); k > 0; k-- {
+			b.WriteString(atoms[rng.Intn(len(atoms))])
+		}
+		out = append(out, "N jq "+dialect.Hx(b.String()))
+	}
+	lits := []string{"a", "\\n", "\\\"", "\\\\", "\\/", "\\b", "\\f", "\\r", "\\t", "\\u0041", "\\u00e9", "\\u2028", "\\ud83d\\ude00", "\\ud83d", "\\ude00", "\\ud83dx", "\\ud83d\\u0041", "\\u12", "\\uzzzz", "\\x", "\\'", "\\", "\"", "\n", "\x01", "é", " ", "\\U0041", "\\u004", "\\uD83D\\uDE00", "\\u0000"}
+	for i := 0; i < n; i++ {
+		var b strings.Builder
+		for k := rng.Intn(5); k > 0; k-- {
+			b.WriteString(lits[rng.Intn(len(lits))])
+		}
+		lit := "\"" + b.String() + "\""
+		switch rng.Intn(12) {
+		case 0:
+			lit = lit[1:]
+		case 1:
+			lit = lit[:len(lit)-1]
+		}
+		out = append(out, "N ju "+dialect.Hx(lit))
+	}
+	return out
 }
